@@ -296,6 +296,11 @@ func (p *Prog) resolveRole(role string) (*ssa.Function, error) {
 			if f == call || f == ex {
 				continue
 			}
+			// a private step of Call (an unexported `call(builder)` that Call and Convert share) is part of Call
+			if call != nil && f.Parent() == nil && f.Object() != nil && !f.Object().Exported() && p.callsFn(call, f) && !p.callsFn(f, f) &&
+				f.Signature.Results().Len() == 1 && NamedOf(f.Signature.Results().At(0).Type()) == "Result" && !p.usedAsValue(f) {
+				continue
+			}
 			if p.callsFn(f, ex) {
 				c = append(c, f)
 			}
